@@ -87,7 +87,11 @@ partial def sFields (S : Schema) (d : MsgD) : Fields → String
        let vs := if f.card = .map then Vals.sortBy printKeyLess vs else vs
        s!"{num} r {vs.toList.length} " ++ String.join (vs.toList.map fun v => sVal S f v ++ " ")) ++ sFields S d tl
 partial def sVal (S : Schema) (f : Field) : Val → String
-  | .num n => s!"n {n}"
+  | .num n =>
+    -- canonical output only: the Go harness reads float32 fields through protoreflect (float64), which turns a
+    -- signalling NaN into the quiet NaN with the same payload; print the same canonical pattern here
+    let n := if f.kind = .float ∧ (n / 8388608) % 256 = 255 ∧ n % 8388608 ≠ 0 then n ||| 4194304 else n
+    s!"n {n}"
   | .bytes b => s!"b {hexOfBytes b}"
   | .msg m => sMsg S f.sub m
 end
